@@ -17,7 +17,6 @@
 package main
 
 import (
-	"context"
 	"fmt"
 	"hash/fnv"
 	"math/rand"
@@ -27,6 +26,32 @@ import (
 
 	"verifharness/internal/ev"
 )
+
+// samples are collected per category and flushed round-robin, so that the few samples the
+// evidence keeps show every kind of probe.
+var (
+	sampleMu sync.Mutex
+	sampleBy = map[string][]any{}
+)
+
+func keep(cat string, v any) {
+	sampleMu.Lock()
+	if len(sampleBy[cat]) < 2 {
+		sampleBy[cat] = append(sampleBy[cat], v)
+	}
+	sampleMu.Unlock()
+}
+
+func flushSamples(r *ev.Run) {
+	cats := []string{"token-leader", "tls-binary", "token-follower", "tls-inproc", "control", "unprotected"}
+	for round := 0; round < 2; round++ {
+		for _, c := range cats {
+			if len(sampleBy[c]) > round {
+				r.Sample(sampleBy[c][round])
+			}
+		}
+	}
+}
 
 type group struct {
 	id  string
@@ -161,12 +186,12 @@ func runTokenGroup(r *ev.Run, id, flavour, style string, all bool, rng *rand.Ran
 	g.runUnaffected()
 }
 
-// stripRev removes " rev=N" from table lines so that leader and follower dumps compare.
+// stripRev removes " applied=N" from table lines so that leader and follower dumps compare.
 func stripRev(d string) string {
 	out := make([]byte, 0, len(d))
 	for i := 0; i < len(d); {
-		if i+5 <= len(d) && d[i:i+5] == " rev=" {
-			j := i + 5
+		if i+9 <= len(d) && d[i:i+9] == " applied=" {
+			j := i + 9
 			for j < len(d) && d[j] >= '0' && d[j] <= '9' {
 				j++
 			}
@@ -309,7 +334,7 @@ func run(r *ev.Run) int {
 		}()
 	}
 	wg.Wait()
-	_ = context.Background
+	flushSamples(r)
 
 	if r.Replay == "" {
 		nm := int64(len(protectedMethods()))
